@@ -115,3 +115,21 @@ func init() {
 		return fmt.Sprintf("def %s : Bool := %v", f.Lean, calls > 0 && detached == 0), nil
 	})
 }
+
+func init() {
+	// mentions: the identifier or field name Name occurs somewhere in the function.  Lean: `def <lean> : Bool`.
+	Register("mentions", func(repo string, f Fact) (string, error) {
+		_, fd, err := findFunc(repo, f.File, f.Func)
+		if err != nil {
+			return "", err
+		}
+		found := false
+		ast.Inspect(fd, func(n ast.Node) bool {
+			if id, ok := n.(*ast.Ident); ok && id.Name == f.Name {
+				found = true
+			}
+			return true
+		})
+		return fmt.Sprintf("def %s : Bool := %v", f.Lean, found), nil
+	})
+}
